@@ -535,6 +535,11 @@ PlansC11 ==
 \* C17: statements whose labels / evaluations cannot be looked up never verify
 PlansC17(st) ==
   {Plan("honest", "accept", <<>>)}
+  \* a commitment shown with a degree bound the keys were not trimmed for: an error, never a verification result
+  \cup (IF S \in {"marlin", "sonic"}
+        THEN {Plan("unsupported_label", "not_accept", <<[M("relabel_bound") EXCEPT !.l = ld[1], !.d = ld[2]]>>) :
+                ld \in {x \in {l \in L : BoundOf(polys[l]) # NONE} \X (1..pp.maxdeg) : x[2] \notin BoundSet(keys)}}
+        ELSE {})
   \cup (IF st.kind \in {"batch", "lc"}
         THEN {Plan("missing_eval", "not_accept", <<[M("missing_eval") EXCEPT !.l = key[1], !.pt = key[2]]>>) : key \in ClaimKeys(st)}
         ELSE {})
